@@ -2670,6 +2670,31 @@ class ChannelManager:
             )
             return
 
+        # Check the peer's parameters: an MPS or MTU below the minimum (an MPS of 0 in
+        # particular) would make the channel spend every credit on frames that carry
+        # nothing.
+        if (
+            request.mtu < L2CAP_LE_CREDIT_BASED_CONNECTION_MIN_MTU
+            or request.mps < L2CAP_LE_CREDIT_BASED_CONNECTION_MIN_MPS
+            or request.mps > L2CAP_LE_CREDIT_BASED_CONNECTION_MAX_MPS
+        ):
+            logger.warning(
+                f'unacceptable parameters: mtu={request.mtu}, mps={request.mps}'
+            )
+            self.send_control_frame(
+                connection,
+                cid,
+                L2CAP_LE_Credit_Based_Connection_Response(
+                    identifier=request.identifier,
+                    destination_cid=0,
+                    mtu=server.mtu,
+                    mps=server.mps,
+                    initial_credits=0,
+                    result=L2CAP_LE_Credit_Based_Connection_Response.Result.CONNECTION_REFUSED_UNACCEPTABLE_PARAMETERS,
+                ),
+            )
+            return
+
         # Check that the CID isn't already used
         le_connection_channels = self.le_coc_channels.setdefault(connection.handle, {})
         if request.source_cid in le_connection_channels:
@@ -2804,6 +2829,29 @@ class ChannelManager:
                     mps=L2CAP_LE_CREDIT_BASED_CONNECTION_DEFAULT_MPS,
                     initial_credits=0,
                     result=L2CAP_Credit_Based_Connection_Response.Result.ALL_CONNECTIONS_REFUSED_SPSM_NOT_SUPPORTED,
+                ),
+            )
+            return
+
+        # Check the peer's parameters (see the LE credit-based request above)
+        if (
+            request.mtu < L2CAP_LE_CREDIT_BASED_CONNECTION_MIN_MTU
+            or request.mps < L2CAP_LE_CREDIT_BASED_CONNECTION_MIN_MPS
+            or request.mps > L2CAP_LE_CREDIT_BASED_CONNECTION_MAX_MPS
+        ):
+            logger.warning(
+                f'invalid parameters: mtu={request.mtu}, mps={request.mps}'
+            )
+            self.send_control_frame(
+                connection,
+                cid,
+                L2CAP_Credit_Based_Connection_Response(
+                    identifier=request.identifier,
+                    destination_cid=[],
+                    mtu=server.mtu,
+                    mps=server.mps,
+                    initial_credits=0,
+                    result=L2CAP_Credit_Based_Connection_Response.Result.ALL_CONNECTIONS_REFUSED_INVALID_PARAMETERS,
                 ),
             )
             return
